@@ -133,10 +133,13 @@ class TranslateNode(Node, TranslatableTag):
 
     def resolve_translations(self, context: RenderContext) -> Translations:
         """Return a translations object from the current render context."""
-        return cast(
-            Translations,
-            context.resolve(self.translations_var, self.default_translations),
+        translations = context.resolve(
+            self.translations_var, self.default_translations
         )
+        if not hasattr(translations, "gettext"):
+            # Ordinary data that happens to use the same name, not a message catalog.
+            return self.default_translations
+        return cast(Translations, translations)
 
     def resolve_count(
         self,
